@@ -52,6 +52,9 @@ def instances(tier):
     for g in (4, 5):
         for anchor in ("accept", "write", "write_bp"):
             out.append({"kind": "turns", "gen": g, "k": 2 if tier == "quick" else 3, "anchor": anchor, "span": 10 if tier == "quick" else 8})
+    # an unencodable message among the held ones does not keep the others from going out
+    for g in (4, 5):
+        out.append({"kind": "held_unencodable", "gen": g})
     # every message class as first/second message (content check of the frame of *that* message)
     n = 18
     step = 3 if tier == "quick" else 1
@@ -73,7 +76,57 @@ def run(ctx, p):
         return _counter_wrap(ctx, p)
     if k == "turns":
         return _turns(ctx, p)
+    if k == "held_unencodable":
+        return _held_unencodable(ctx, p)
     return _sends(ctx, p)
+
+
+def _held_unencodable(ctx, p):
+    """Three messages are accepted while the link is down, one of them (solver-chosen position and kind) cannot be encoded;
+    as soon as the connection exists the other two are transmitted, once each, in acceptance order."""
+    from . import c07
+    g = Gen(p["gen"])
+    S = socket_mod()
+    cat = catalog.catalog(g)
+    pos = ctx.choice("bad_position", 3)
+    bad = (c07._unencodable, c07._unencodable_other)[ctx.choice("bad_kind", 2)](g)
+    lat = ctx.real("lat", 0, 1.5)
+    results = {}
+    with Rig(ctx, g) as rig:
+        rig.net.on_connect = lambda net, n: ("accept", lat) if n >= 1 else ("refuse",)
+        msgs = [cat[3][1](1), cat[17][1](2)]
+        seq = list(msgs)
+        seq.insert(pos, bad)
+
+        async def go():
+            for i, m in enumerate(seq):
+                try:
+                    await rig.sock.send(m, S.RetryPolicy(max_retries=1, max_lifetime=30.0))
+                    results[i] = "ok"
+                except Exception as e:  # noqa: BLE001
+                    results[i] = type(e).__name__
+
+        rig.spawn(rig.sock.open_socket())
+        rig.loop.vt_call_at(0.5, lambda: rig.spawn(go()))
+        rig.loop.vt_run(12.25)
+        detail = {"bad_position": pos, "results": dict(results)}
+        ctx.check(all(results.get(i) == "ok" for i in range(3)), "sends.accepted", detail=detail)
+        wire = rig.net.conns[0].written() if rig.net.conns else []
+        pids = [i for i in range(3) if i != pos]
+        exp = catalog.ref_frame(g.n, cat[3], 1, pids[0]) + catalog.ref_frame(g.n, cat[17], 2, pids[1])
+        ctx.observe("wire_len", len(wire))
+        ctx.check(bytes(wire) == bytes(exp), "sends.wire", detail=dict(detail, wire_len=len(wire), expected_len=len(exp)))
+        t_conn = rig.net.conns[0].opened_at if rig.net.conns else None
+        ctx.check(bool(rig.net.conns) and all(_bb(t == t_conn) for t, _ in rig.net.conns[0].writes), "sends.wire",
+                  detail=dict(detail, why="not written as soon as the connection existed"))
+        ctx.check(len(rig.net.conns) == 1 and not rig.task_failures(), "sends.wire", detail="connection disturbed / task failure")
+    for lab in ("counter.step", "counter.wrap", "sends.contiguous"):
+        ctx.reach(lab)
+
+
+def _bb(x):
+    from sx.values import SymBool
+    return bool(x) if isinstance(x, SymBool) else x
 
 
 def _turns(ctx, p):
